@@ -1015,7 +1015,7 @@ func runC12(w *World, r *Report) {
 					continue
 				}
 				if lv, isV := a.in.(ssa.Value); isV {
-					if at := flowsToBranch(w, lv, 4, map[ssa.Value]bool{}); at != nil {
+					if at := flowsToBranch(w, lv, 4, map[ssa.Value]bool{}); at != nil && branchChangesEffects(at) {
 						bad += fmt.Sprintf(" len(set) at %s decides the branch at %s;", lineOf(w, a.in), lineOf(w, at))
 					}
 				}
@@ -1218,4 +1218,46 @@ func flowsToBranch(w *World, v ssa.Value, depth int, seen map[ssa.Value]bool) ss
 		}
 	}
 	return nil
+}
+
+
+// branchChangesEffects: the two sides of the branch differ in what they can do besides logging — the calls (other than
+// to the logger and to fmt) reachable from one successor, before control comes back to the test, are not those
+// reachable from the other; or one side leaves the function and the other does not.
+func branchChangesEffects(at ssa.Instruction) bool {
+	iff, ok := at.(*ssa.If)
+	if !ok {
+		return true
+	}
+	b := iff.Block()
+	if len(b.Succs) != 2 {
+		return true
+	}
+	cut := map[Edge]bool{{b, 0}: true, {b, 1}: true}
+	sig := func(s *ssa.BasicBlock) string {
+		var parts []string
+		for blk := range reachable([]*ssa.BasicBlock{s}, cut) {
+			for _, in := range blk.Instrs {
+				switch x := in.(type) {
+				case ssa.CallInstruction:
+					n := calleeName(x)
+					if strings.Contains(n, "logger.") || strings.Contains(n, "/logging.") || strings.HasPrefix(n, "fmt.") || strings.HasPrefix(n, "builtin.") || n == "" && x.Common().IsInvoke() {
+						continue
+					}
+					parts = append(parts, fmt.Sprintf("c%p", x))
+				case *ssa.Return:
+					parts = append(parts, fmt.Sprintf("r%p", x))
+				case *ssa.Store:
+					if _, local := baseOf(x.Addr).(*ssa.Alloc); !local { // not the argument array of a variadic call
+						parts = append(parts, fmt.Sprintf("w%p", x))
+					}
+				case *ssa.MapUpdate, *ssa.Send:
+					parts = append(parts, fmt.Sprintf("w%p", x))
+				}
+			}
+		}
+		sortStrings(parts)
+		return strings.Join(parts, ",")
+	}
+	return sig(b.Succs[0]) != sig(b.Succs[1])
 }
